@@ -19,7 +19,7 @@ RULE = (
     "linear row 0 kind {eq, lower, upper, two-sided, unbounded} x position (15 settings, row 1 cycled); non-linear "
     "constraint 0 kind x position (15 settings, constraint 1 cycled); transforms {none, variable+constraint+objective scalers, offsets-only variable scaler (thorough: also scales-only and a second set)}; "
     "tracker tolerance {1e-10, None, 0.0, 0.5}. Oracle: IEEE formulas value-lower, value-upper, max(lower-value, value-upper, 0); "
-    "bound information present whenever any variable bound is finite; tracker holds the result iff all violations <= tol. "
+    "bound information present whenever any variable bound is finite; tracker holds the result iff all violations <= tol; for one tolerance the evaluation is repeated with the realization failing: the result without functions still reports exact bound and linear differences. "
     "Every case is non-trivial."
 )
 ASSUMPTIONS = [
@@ -162,6 +162,32 @@ def judge(case: dict[str, Any]) -> Judgement:
     held = plan.get(tracker, "results") is not None
     if held != all_feasible:
         j.fail("tracker-feasibility", held=held, expected=all_feasible, tol=tol)
+    if tol == 1e-10:
+        # the same evaluation with the realization failing: the result carries no functions, but it is a function result
+        # and its bound and linear differences / violations are still reported - exactly
+        failing = TableEvaluator(lambda x, r: [float(x.sum()), t["nl"][0], t["nl"][1]], 1, 2, fail=lambda call, row, r, p: [0])
+        context2 = OptimizerContext(evaluator=failing, plugin_manager=manager)
+        events2: list[Any] = []
+        context2.add_observer(EventType.FINISHED_EVALUATION, events2.append)
+        plan2 = Plan(context2)
+        step2 = plan2.add_step("evaluator")
+        cfg2, transforms2, _ = build(case)
+        try:
+            plan2.run_step(step2, config=cfg2, transforms=transforms2)
+            failed_result = events2[0].data["results"][0]
+        except Exception as exc:  # noqa: BLE001
+            j.fail(f"failed-evaluation-step-raised:{type(exc).__name__}", message=str(exc)[:200])
+            failed_result = None
+        if failed_result is not None and failed_result.functions is None and failed_result.constraint_info is not None:
+            info2 = failed_result.constraint_info
+            for name, value, lb, ub in groups[:2]:
+                got = [getattr(info2, f"{name}_{part}") for part in ("lower", "upper", "violation")]
+                if any(item is None for item in got):
+                    continue
+                expected = [value - lb, value - ub, violation(value, lb, ub)]
+                for part, g, e in zip(("lower-diff", "upper-diff", "violation"), got, expected):
+                    if not close(g, e, 1e-9):
+                        j.fail(f"failed-result:{name}-{part}", observed=g, expected=e, transforms=case["transforms"])
     j.outcome = f"feasible={all_feasible}/v={VAR_SETTINGS[case['v0']][0][0]}{VAR_SETTINGS[case['v1']][0][0]}/t={case['transforms']}"
     return j
 
